@@ -131,11 +131,12 @@ def make_multi_iface(ctx, rounds, idx=0):
     return s
 
 
-def make_repeat(ctx, count, k):
-    """the same non-Probe request K times in a fixed state"""
+def make_repeat(ctx, count, k, faulty=False):
+    """the same non-Probe request K times in a fixed state; faulty: while allocations keep failing (every p-th one, or each
+    with probability 1/p), as on a machine that is short of memory"""
     scns = []
     for i in range(count):
-        rng = G.rng_for(ctx.seed, "C19r", i)
+        rng = G.rng_for(ctx.seed, "C19rf" if faulty else "C19r", i)
         cfg = G.rand_cfg(rng, mtu=rng.choice([576, 1500, 9216]))
         net = G.Net(rng, cfg["mac"])
         glob = G.rand_global(rng, icon_size=rng.choice([0, 500, 20000, 40000, 65536]))
@@ -156,13 +157,18 @@ def make_repeat(ctx, count, k):
               "charge": lambda: W.simple(W.OP_CHARGE, net.own, net.mappers[m]),
               "hello": lambda: G.f_hello(rng, net),
               "foreign-tos": lambda: G.f_misc(rng, net, opcode=rng.randint(0, 12), tos=2)}[which]()
-        s = H.Scenario("rep%d" % i, meta=dict(kind="repeat", which=which, npre=len(pre), k=k))
+        s = H.Scenario("%s%d" % ("repf" if faulty else "rep", i), meta=dict(kind="repeat", which=which, npre=len(pre), k=k, faulty=faulty))
         s.iface(0, **H.iface_kw(cfg)).glob(**G.global_kw(glob))
         s.add("OPT sleep=0 txhex=0 txcap=0 ledger=1")
         for p in pre:
             s.frame(0, p)
+        if faulty:
+            s.add("FAULT malloc %d %d" % (rng.choice([2, 2, 3, 4, 5, 7]), rng.choice([2, 2, 3])))
         for _ in range(k):
             s.frame(0, fr)
+        if faulty:
+            s.add("CLEAR")
+            s.frame(0, W.reset(net.mappers[m], tos=0))
         scns.append(s)
     return scns
 
@@ -247,6 +253,28 @@ def monitor(scn, sobj, rep, sf, ck):
     if kind == "repeat":
         npre, k = sobj.meta["npre"], sobj.meta["k"]
         reps = leds[npre:npre + k]
+        if sobj.meta.get("faulty"):
+            # allocations fail now and then: live memory may go up and down with what could be allocated, but what is
+            # seen in the second half of the repetitions must have been seen in the first half already, and after the
+            # faults stop and a Reset arrives only the per-interface record is left
+            if len(reps) >= 100:
+                h = len(reps) // 2
+                early, late = max(x[1] for x in reps[:h]), max(x[1] for x in reps[h:])
+                rep.count("repeat_under_allocation_failures_checked")
+                rep.count("repeat_faulty:" + sobj.meta["which"])
+                if late > early:
+                    rep.violation("C19:repeated-request-grows-memory-under-allocation-failures:%s" % sobj.meta["which"],
+                                  "scenario %s: the same %s request repeated %d times while allocations fail intermittently: live "
+                                  "bytes at most %d during the first half, up to %d in the second (live allocations %d -> %d)"
+                                  % (scn.sid, sobj.meta["which"], k, early, late, max(x[0] for x in reps[:h]), max(x[0] for x in reps[h:])),
+                                  replay=sobj.text())
+                elif scn.clean and len(leds) > npre + k and leds[-1][0] > 1:
+                    rep.violation("C19:allocations-survive-reset:after-allocation-failures",
+                                  "scenario %s: %s x %d under intermittent allocation failures, then faults cleared and Reset: %d "
+                                  "allocations / %d bytes live" % (scn.sid, sobj.meta["which"], k, leds[-1][0], leds[-1][1]), replay=sobj.text())
+                else:
+                    rep.nontrivial(("repeat-faulty", scn.sid))
+            return
         if len(reps) >= 3:
             after2 = reps[1][1]
             worst = max(x[1] for x in reps[2:])
@@ -326,7 +354,7 @@ def run(ctx):
     rep.assumptions = ["any cap of up to 16384 retained observations is accepted; continued growth is the violation",
                        "only parseFrame is driven here: daemon-owned automata objects are not the responder's retained state"]
     binary = H.build(ctx.work, "asan")
-    scns = [make_baseline()] + make_repeat(ctx, ctx.n(39, 390), 1000)
+    scns = [make_baseline()] + make_repeat(ctx, ctx.n(39, 390), 1000) + make_repeat(ctx, ctx.n(39, 390), 1000, faulty=True)
     scns += make_mixed(ctx, ctx.n(40, 192), ctx.n(20000, 100000))
     scns.append(make_flood(ctx, ctx.n(40000, 100000)))
     scns.append(make_cyclic_flood(ctx, ctx.n(40000, 100000)))
@@ -359,6 +387,7 @@ def run(ctx):
     rep.need("after_reset_checked", c.get("after_reset_checked", 0), ctx.n(20, 96))
     rep.need("two_interface_histories", c.get("two_interface_histories", 0), ctx.n(15, 80))
     rep.need("repeat_checked", c.get("repeat_checked", 0), ctx.n(39, 390))
+    rep.need("repeat_under_allocation_failures_checked", c.get("repeat_under_allocation_failures_checked", 0), ctx.n(39, 390))
     rep.need("plateau_checked or violation", c.get("plateau_checked", 0) + sum(1 for k in rep.viol if k.startswith("C19:retained")), 2)
     rep.need("multi_iface_rounds", c.get("multi_iface_rounds", 0), ctx.n(1000, 50000))
     rep.need("mixed_frames", c.get("mixed_frames", 0), ctx.n(700000, 17 * 10 ** 6))
